@@ -213,20 +213,44 @@ def collector_value(prog, w, chan_id_int16, shape, name):
 COLLECTOR_SHAPES = ['None', 'Start:Delivery', 'Start:Return', 'Start:Get', 'Body:Delivery', 'Body:Return', 'Body:Get']
 
 
+_REPLY_CAP_OF = {}
+
+
+def reply_capacity(ctx, prog):
+    """capacity of the per-channel reply queue as ChannelSlot::new creates it (executed from MIR once per program)"""
+    if id(prog) not in _REPLY_CAP_OF:
+        import mirsym.world as _w
+        ex0 = ctx.executor(prog, io_summaries() + common_summaries(), unwind=4)
+        install_type_hooks(ex0)
+        caps = set()
+        for (s, rv) in ex0.run(State(), prog.method('ChannelSlot', 'new'), [Int(sym('slotnew.bound', BV64), 64), Int(sym('slotnew.id', BV16), 16)]):
+            if isinstance(rv, Panic):
+                raise Unsupported(f"ChannelSlot::new: {rv}")
+            sl = rv.fields[0]
+            tx = field(prog, sl, 'ChannelSlot', 'tx')
+            caps.add(tx.chan.cap)
+        if len(caps) != 1:
+            raise Unsupported(f"ChannelSlot::new: reply queue capacity not unique ({caps})")
+        _REPLY_CAP_OF[id(prog)] = caps.pop()
+        _w.REPLY_CAP['cap'] = _REPLY_CAP_OF[id(prog)]
+    return _REPLY_CAP_OF[id(prog)]
+
+
 def io_executor(ctx, prog, unwind=6, extra=()):
     ex = ctx.executor(prog, list(extra) + io_summaries() + common_summaries(), unwind=unwind)
     install_type_hooks(ex)
+    reply_capacity(ctx, prog)
     return ex
 
 
-def explore_step(ctx, ex, prog, shapeA='None', consumersA=1, consumersB=1, second_frame=False, frame_name='frame', pre=None, ch0_prefill=0):
+def explore_step(ctx, ex, prog, shapeA='None', consumersA=1, consumersB=1, second_frame=False, frame_name='frame', pre=None, ch0_prefill=0, prefillA=0):
     """One step of ConnectionState::process from a Steady state with two open channels A, B (symbolic distinct
     non-zero ids), A's collector in `shapeA`, over a fully symbolic frame.
     -> (fs, a, b, infoA, [(state, world, result)])"""
     a, b = z3.BitVec('chan_a', 16), z3.BitVec('chan_b', 16)
     w0 = World()
     collA, infoA = collector_value(prog, w0, a, shapeA, 'A.coll')
-    st, w = build_steady(prog, [('A', a, {'consumers': consumersA, 'collector': collA}), ('B', b, {'consumers': consumersB})], ch0_reply_prefill=ch0_prefill)
+    st, w = build_steady(prog, [('A', a, {'consumers': consumersA, 'collector': collA, 'reply_prefill': prefillA}), ('B', b, {'consumers': consumersB})], ch0_reply_prefill=ch0_prefill)
     st.pc += infoA.get('inv', [])
     fs = FrameSym(prog, frame_name)
     FV = fs.FV
